@@ -177,7 +177,6 @@ impl Oplog {
         }
     }
     pub fn clean_op_log_metadata_files() {
-        remove_invalidate_oplog_file();
         remove_op_log_file();
         remove_keys_map_file();
         if let Ok(entries) = read_dir(get_op_log_dir_name()) {
@@ -197,6 +196,9 @@ impl Oplog {
                 }
             }
         }
+        // The flag goes last: a missing flag file reads as valid, a process killed in the middle
+        // of this clean up must find the flag still saying invalid at its next start
+        remove_invalidate_oplog_file();
     }
     pub fn get_op_log_file_name() -> String {
         format!("{dir}/{sufix}", dir = get_dir_name(), sufix = OP_LOG_FILE)
